@@ -166,6 +166,14 @@ GenPlan(d, sd) ==
             sch |-> kks \o [j \in 1..Len(as) |-> as[j].k]]
       [] c = 8 /\ Has("distinct") -> [p |-> [op |-> "distinct", src |-> s.p], sch |-> s.sch]
       [] c = 9 /\ Has("setop") ->
+           \* half of the set operations are over one narrow integer column on both sides, so that
+           \* duplicate rows and rows common to both inputs are frequent (multiplicities matter for ALL)
+           IF ColsOf(s.sch, "i") # {} /\ ColsOf(r0.sch, "i") # {} /\ Chance(50, Mix(sd, 7))
+             THEN [p |-> [op |-> "setop", f |-> PickSeq(<<"union", "intersect", "except">>, Mix(sd, 5)), all |-> Chance(60, Mix(sd, 6)),
+                          l |-> [op |-> "project", es |-> <<Col(PickCol(s.sch, "i", Mix(sd, 8)))>>, src |-> s.p],
+                          r |-> [op |-> "project", es |-> <<Col(PickCol(r0.sch, "i", Mix(sd, 9)))>>, src |-> r0.p]],
+                   sch |-> <<"i">>]
+             ELSE
            LET r == [op |-> "project", es |-> [j \in 1..Len(s.sch) |-> GenE(s.sch[j], 1, r0.sch, <<>>, Mix(sd, 30 + j))], src |-> r0.p] IN
            [p |-> [op |-> "setop", f |-> PickSeq(<<"union", "intersect", "except">>, Mix(sd, 5)), all |-> Chance(50, Mix(sd, 6)),
                    l |-> s.p, r |-> r], sch |-> s.sch]
@@ -196,10 +204,11 @@ Emit ==
   LET db == GenDB(dbseed)
       plan == GenRoot(planseed)
       res == EvalPlan(plan.p, <<>>, db)
+      alt == EvalPlan(AltPlan(plan.p), <<>>, db)
       universe == IF plan.p.op = "limit"
                     THEN EvalPlan(IF plan.p.src.op = "sort" THEN plan.p.src.src ELSE plan.p.src, <<>>, db).rows
                     ELSE <<>> IN
   PrintT(<<"CASE", ToJson([id |-> n, dbseed |-> dbseed, planseed |-> planseed, db |-> db, schemas |-> Schemas,
-                           plan |-> plan.p, schema |-> plan.sch, mode |-> Mode(plan.p), expect |-> res,
+                           plan |-> plan.p, schema |-> plan.sch, mode |-> Mode(plan.p), expect |-> res, expect_alt |-> alt,
                            universe |-> universe])>>)
 =============================================================================
